@@ -43,7 +43,8 @@ def _mk(s, sc, ec):
 def _full_cases(max_size=10):
     return st.fixed_dictionaries(dict(
     s=gen.score_sets(min_pos=1, min_neg=1, max_size=max_size,
-                     modes=("grid", "grid", "grid", "int", "dyadic", "float", "ulp", "distinct"), huge_easy=True, containers=("f64", "f64", "f32", "list", "neg-int", "pos-int", "neg-f32"))))
+                     modes=("grid", "grid", "grid", "int", "dyadic", "float", "ulp", "distinct"), huge_easy=True, containers=("f64", "f64", "f32", "list", "neg-int", "pos-int", "neg-f32", "f128")),
+    int_limits=st.booleans()))
 
 
 def check_full(case):
@@ -51,7 +52,8 @@ def check_full(case):
     pos, neg, ep, en = s["pos"], s["neg"], s["ep"], s["en"]
     cross = bool(set(map(float, pos)) & set(map(float, neg)))
     for sc, ec in CONFIGS:
-        got = float(_mk(s, sc, ec).auc())
+        # the default limits, or the same limits written as Python integers
+        got = float(_mk(s, sc, ec).auc(0, 1) if case.get("int_limits") else _mk(s, sc, ec).auc())
         ref = mann_whitney(pos, neg, sc, ep, en)
         require(abs(got - float(ref)) <= 1e-12, "auc:mann-whitney",
                 lambda: f"config={sc}/{ec} pos={pos} neg={neg} ep={ep} en={en}: auc()={got!r}, "
@@ -61,7 +63,9 @@ def check_full(case):
                 lambda: f"config={sc}/{ec}: auc(x=tpr,y=fpr)={swapped!r} expected {1 - float(ref)!r}")
     lo_p, hi_p, lo_n, hi_n = min(pos), max(pos), min(neg), max(neg)
     overlap = not (lo_p > hi_n or hi_p < lo_n)
-    labels = [f"mode:{s['mode']}"]
+    labels = [f"mode:{s['mode']}", f"container:{s.get('container')}"]
+    if case.get("int_limits"):
+        labels.append("integer-limits")
     if cross:
         labels.append("cross-tie")
         allv = list(map(float, pos + neg))
@@ -100,7 +104,9 @@ def _partial_cases(draw):
                          st.sampled_from([0.0, 1.0, 0.5, 1 / 3, 0.1]))
 
     pts = sorted(draw(st.lists(lim(), min_size=3, max_size=3)))
-    return dict(s=dict(pos=pos, neg=neg, ep=ep, en=en, mode="float"), lims=pts)
+    return dict(s=dict(pos=pos, neg=neg, ep=ep, en=en, mode="float",
+                       container=draw(st.sampled_from(["f64", "f64", "list", "f128", "f32"]))), lims=pts,
+                lim_kind=draw(st.sampled_from(["float", "float", "int", "np"])))
 
 
 def check_partial(case):
@@ -108,21 +114,33 @@ def check_partial(case):
     pos, neg, ep, en = s["pos"], s["neg"], s["ep"], s["en"]
     lo, mid, up = case["lims"]
     inside = False
+    kind = case.get("lim_kind", "float")
+    if s.get("container") == "f32" and any(float(np.float32(v)) != v for v in pos + neg):
+        s = dict(s, container="f64")
+
+    def L(v):
+        """The limit as the caller may write it: 0 and 1 as Python integers, or NumPy scalars."""
+        if kind == "int" and v in (0.0, 1.0):
+            return int(v)
+        if kind == "np":
+            return np.float64(v)
+        return v
+
     for sc, ec in CONFIGS:
         obj = _mk(s, sc, ec)
         ctx = f"config={sc}/{ec} pos={pos} neg={neg} ep={ep} en={en}"
         areas = {}
         for a, b in ((lo, up), (lo, mid), (mid, up), (0.0, 1.0)):
-            got = float(obj.auc(a, b))
+            got = float(obj.auc(L(a), L(b)))
             ref = float(step_area(pos, neg, ep, en, sc, F(a), F(b)))
             areas[(a, b)] = got
             require(abs(got - ref) <= 1e-9, "pauc:step-area",
                     lambda: f"{ctx}: auc({a!r},{b!r})={got!r}, exact step area {ref!r}")
             require(got <= (b - a) + 1e-12, "pauc:exceeds-width", f"{ctx}: {got!r} > {b - a!r}")
-            yc = float(obj.auc(a, b, y_axis="fnr"))
+            yc = float(obj.auc(L(a), L(b), y_axis="fnr"))
             require(abs(yc - ((b - a) - ref)) <= 1e-9, "pauc:y-complement",
                     lambda: f"{ctx}: auc({a!r},{b!r},y=fnr)={yc!r} expected {(b - a) - ref!r}")
-            xc = float(obj.auc(1 - b, 1 - a, x_axis="tnr"))
+            xc = float(obj.auc(L(1 - b), L(1 - a), x_axis="tnr"))
             require(abs(xc - ref) <= 1e-9, "pauc:x-complement",
                     lambda: f"{ctx}: auc({1 - b!r},{1 - a!r},x=tnr)={xc!r} expected {ref!r}")
         require(abs(areas[(lo, mid)] + areas[(mid, up)] - areas[(lo, up)]) <= 1e-9,
@@ -134,7 +152,7 @@ def check_partial(case):
         inside = True
     lo_p, hi_p, lo_n, hi_n = min(pos), max(pos), min(neg), max(neg)
     overlap = not (lo_p > hi_n or hi_p < lo_n)
-    return dict(nontrivial=overlap and inside, labels=["easy"] if ep or en else [])
+    return dict(nontrivial=overlap and inside, labels=(["easy"] if ep or en else []) + [f"limits:{kind}", f"container:{s.get('container')}"])
 
 
 PROP = Prop(
